@@ -49,13 +49,25 @@ def render(s):
         adv = [x for j in range(1, s["n"] + 1) for x in W(20 + j)]
         return {"src": "use.std::mem\nbegin\n%s  push.{{COM}} push.%d push.%d exec.mem::pipe_preimage_to_memory\nend\n" % (PRELOAD, s["w"], s["n"]), "inputs": [], "adv_stack": [str(x) for x in adv],
                 "hash_elems": [str(x) for x in (adv if s["good"] else adv[:-1] + [adv[-1] + 1])], "mem_dump": list(range(100, 112))}
+    if k == "pipe2":
+        adv = [x for j in range(1, s["n"] + 1) for x in W(20 + j)]
+        state = list(range(31, 43))              # hasher state, capacity first; on the stack its last element is on top
+        return {"src": "use.std::mem\nbegin\n%s  exec.mem::pipe_double_words_to_memory\nend\n" % PRELOAD,
+                "inputs": [str(x) for x in reversed(state)] + [str(s["w"]), str(s["w"] + s["n"]), "77"], "adv_stack": [str(x) for x in adv],
+                "absorb": {"init": [str(x) for x in state], "elems": [str(x) for x in adv]}, "mem_dump": list(range(100, 112))}
+    if k == "mmrfn":
+        arg = sum(v << (16 * i) for i, v in enumerate(s["arg"]))
+        return {"src": "use.std::collections::mmr\nbegin\n  exec.mmr::%s\nend\n" % s["fn"], "inputs": [str(arg), "7", "8", "9"]}
     if k == "mmr":
         n = s["n"]
         body = "".join("  push.1000 %s exec.mmr::add\n" % pw(W(i)) for i in range(1, n + 1))
         body += "".join("  push.1000 push.%d exec.mmr::get mem_storew.%d dropw\n" % (p, 2000 + p) for p in range(n))
+        # pack the accumulator (hash kept at 2500), unpack it at another address, read every leaf position through the copy
+        body += "  push.1000 exec.mmr::pack mem_storew.2500 push.1500 movdn.4 exec.mmr::unpack\n"
+        body += "".join("  push.1500 push.%d exec.mmr::get mem_storew.%d dropw\n" % (p, 2600 + p) for p in range(n))
         body += "  push.%d exec.mmr::num_leaves_to_num_peaks\n" % n
         return {"src": "use.std::collections::mmr\nbegin\n%send\n" % body, "inputs": [], "mmr_leaves": [[str(x) for x in W(i)] for i in range(1, n + 1)],
-                "mem_dump": [1000] + list(range(1001, 1001 + 8)) + list(range(2000, 2000 + n))}
+                "mem_dump": [1000] + list(range(1001, 1001 + 8)) + list(range(2000, 2000 + n)) + [2500] + list(range(1500, 1509)) + list(range(2600, 2600 + n))}
     if k == "smt":
         items = s["init"].items() if isinstance(s["init"], dict) else enumerate(s["init"], 1)
         init = [[KEYS[int(kk)], VALS[v]] for kk, v in sorted(items) if v != 0]
@@ -78,7 +90,7 @@ def run(tier, replay=None):
     wd = workdir("C18", clean=True)
     thorough = tier == "thorough"
     scs = []
-    for kind in ("truncate", "memcopy", "pipe", "mmr", "smt"):
+    for kind in ("truncate", "memcopy", "pipe", "pipe2", "mmrfn", "mmr", "smt"):
         r, ss = gen(kind, wd, maxleaves=20 if thorough else 9, histlen=3 if thorough else 2)
         ck.add_tlc(r)
         if r.violation:
@@ -129,6 +141,10 @@ def run(tier, replay=None):
                 if res["outcome"] == "ok":
                     bad("wrong-commitment-accepted", "pipe_preimage_to_memory accepted data that does not match the commitment (n = %d)" % s["n"])
                 continue
+            if k == "mmrfn" and not s["ok"]:
+                if res["outcome"] == "ok":
+                    bad("accepts:" + s["fn"], "mmr::%s(%s) succeeded, the documentation says it fails" % (s["fn"], r_["inputs"][0]))
+                continue
             if res["outcome"] != "ok":
                 bad("failed", "the call failed: %s | %s" % (res.get("err"), {x: s[x] for x in s if x not in ("expect", "tag", "results", "final", "peaks", "gets")}))
                 continue
@@ -150,6 +166,17 @@ def run(tier, replay=None):
                     bad("pointer", "returned pointer %s, prescribed %d" % (st[4], s["ptr"]))
                 if list(reversed(st[:4])) != nat["hash"]:
                     bad("hash", "returned hash %s is not the RPO hash of the moved elements %s" % (list(reversed(st[:4])), nat["hash"]))
+            elif k == "pipe2":
+                if mem != words(s["expect"]):
+                    bad("memory", "pipe_double_words_to_memory(write_ptr=%d, end_ptr=%d): memory differs from the advice words in order" % (s["w"], s["w"] + s["n"]))
+                if st[12] != str(s["ptr"]) or st[13] != "77":
+                    bad("pointer", "returned [.., %s, %s], prescribed write_ptr' = %d above the untouched element 77" % (st[12], st[13], s["ptr"]))
+                if list(reversed(st[:12])) != nat["absorb"]:
+                    bad("state", "returned hasher state %s is not the state after absorbing the moved words %s" % (list(reversed(st[:12])), nat["absorb"]))
+            elif k == "mmrfn":
+                want = [str(sum(v << (16 * i) for i, v in enumerate(e))) for e in s["expect"]] + ["7", "8", "9"]
+                if st[:len(want)] != want or any(x != "0" for x in st[len(want):]):
+                    bad("value:" + s["fn"], "mmr::%s(%s) left %s on the stack, prescribed %s" % (s["fn"], r_["inputs"][0], st[:len(want) + 1], want))
             elif k == "pipe_preimage":
                 if st[0] != str(s["w"] + s["n"]):
                     bad("pointer", "returned pointer %s" % st[0])
@@ -166,6 +193,15 @@ def run(tier, replay=None):
                 want = [[str(x) for x in W(s["gets"][str(p)] if isinstance(s["gets"], dict) else s["gets"][p])] for p in range(n)]
                 if gets != want:
                     bad("get", "mmr::get returns %s, prescribed the leaves in order" % [g[0] if g else None for g in gets])
+                # pack / unpack: the hash is the accumulator's peak hash; the unpacked copy equals the original
+                hsh, copy, gets2 = mem[9 + n], mem[10 + n:19 + n], mem[19 + n:19 + 2 * n]
+                if hsh != nat["mmr"]["hash_peaks"]:
+                    bad("pack-hash", "mmr::pack returned %s, the native accumulator's peak hash is %s (%d leaves)" % (hsh, nat["mmr"]["hash_peaks"], n))
+                z = ["0", "0", "0", "0"]
+                if [m or z for m in copy] != [m or z for m in mem[0:9]]:
+                    bad("unpack", "the MMR unpacked from the advice map differs from the packed one (%d leaves): %s vs %s" % (n, [m and m[0] for m in copy], [m and m[0] for m in mem[0:9]]))
+                if gets2 != want:
+                    bad("get-unpacked", "mmr::get on the unpacked copy returns %s, prescribed the leaves in order" % [g[0] if g else None for g in gets2])
                 if st[0] != str(s["npeaks"]):
                     bad("num_peaks", "num_leaves_to_num_peaks(%d) = %s, prescribed %d" % (n, st[0], s["npeaks"]))
             elif k == "smt":
